@@ -11,7 +11,17 @@ When no hooks are installed, every function in this module is a no-op, and
 Jiff behaves exactly as it does without `--cfg jiff_verif`.
 */
 
-use std::sync::{OnceLock, RwLock, TryLockError};
+use std::{
+    boxed::Box,
+    cell::Cell,
+    thread_local,
+    vec::Vec,
+    sync::{
+        atomic::{AtomicUsize, Ordering},
+        LockResult, Mutex, OnceLock, RwLockReadGuard, RwLockWriteGuard,
+        TryLockError, TryLockResult,
+    },
+};
 
 /// The table of callbacks a simulation harness installs.
 #[derive(Clone, Copy, Debug)]
@@ -30,6 +40,10 @@ pub struct Hooks {
     /// returns true, the call is not made and fails with an I/O error
     /// instead (as if the system call had returned `EIO`).
     pub fault: fn(&'static str) -> bool,
+    /// Whether, in the current execution, a thread waiting for a write lock
+    /// keeps new readers out (as the futex based `std::sync::RwLock` does;
+    /// std documents the policy as unspecified, so both are explored).
+    pub writer_preference: fn() -> bool,
 }
 
 static HOOKS: OnceLock<Hooks> = OnceLock::new();
@@ -69,32 +83,145 @@ pub(crate) fn monotonic_override() -> Option<Option<std::time::Instant>> {
     HOOKS.get().and_then(|hooks| (hooks.monotonic)())
 }
 
-/// Called immediately before `lock.read()`.
-///
-/// This is a scheduling point. It returns only once a read lock could be
-/// acquired without blocking, so that the real acquisition that follows never
-/// blocks the (single) OS thread a simulation runs on.
-pub(crate) fn acquire_read<T>(lock: &RwLock<T>, site: &'static str) {
-    let Some(hooks) = HOOKS.get() else { return };
-    (hooks.point)(site);
-    loop {
-        match lock.try_read() {
-            Err(TryLockError::WouldBlock) => (hooks.blocked)(site),
-            // A poisoned lock is reported by the real acquisition.
-            Ok(_) | Err(TryLockError::Poisoned(_)) => return,
-        }
+thread_local! {
+    /// The site name given by the `acquire_*` call that precedes a lock
+    /// acquisition. Acquisitions without one are named after their caller's
+    /// source location.
+    static NEXT_SITE: Cell<Option<&'static str>> = const { Cell::new(None) };
+}
+
+/// Names the lock acquisition that follows on this thread.
+pub(crate) fn acquire_read<T>(_lock: &RwLock<T>, site: &'static str) {
+    if HOOKS.get().is_some() {
+        NEXT_SITE.with(|s| s.set(Some(site)));
     }
 }
 
-/// Called immediately before `lock.write()`. See `acquire_read`.
-pub(crate) fn acquire_write<T>(lock: &RwLock<T>, site: &'static str) {
-    let Some(hooks) = HOOKS.get() else { return };
-    (hooks.point)(site);
-    loop {
-        match lock.try_write() {
-            Err(TryLockError::WouldBlock) => (hooks.blocked)(site),
-            // A poisoned lock is reported by the real acquisition.
-            Ok(_) | Err(TryLockError::Poisoned(_)) => return,
+/// Names the lock acquisition that follows on this thread.
+pub(crate) fn acquire_write<T>(_lock: &RwLock<T>, site: &'static str) {
+    if HOOKS.get().is_some() {
+        NEXT_SITE.with(|s| s.set(Some(site)));
+    }
+}
+
+/// The site name of a lock acquisition: the one announced by `acquire_*`, or
+/// else the caller's source location (interned, so that it is `'static`).
+fn site_of(caller: &'static core::panic::Location<'static>) -> &'static str {
+    if let Some(site) = NEXT_SITE.with(|s| s.take()) {
+        return site;
+    }
+    static INTERNED: Mutex<Vec<(&'static str, u32, &'static str)>> =
+        Mutex::new(Vec::new());
+    let mut interned = INTERNED.lock().unwrap_or_else(|e| e.into_inner());
+    for &(file, line, name) in interned.iter() {
+        if file == caller.file() && line == caller.line() {
+            return name;
         }
+    }
+    let name: &'static str = Box::leak(
+        std::format!("lock@{}:{}", caller.file(), caller.line())
+            .into_boxed_str(),
+    );
+    interned.push((caller.file(), caller.line(), name));
+    name
+}
+
+/// A drop-in for `std::sync::RwLock` in the time zone database caches.
+///
+/// Every acquisition, announced or not, is a scheduling point, and never
+/// blocks the OS thread: while the lock cannot be had, the `blocked` hook is
+/// called so that another simulated thread runs. When no hooks are installed
+/// this is exactly `std::sync::RwLock`.
+pub(crate) struct RwLock<T> {
+    inner: std::sync::RwLock<T>,
+    /// Threads currently waiting in `write`.
+    writers_waiting: AtomicUsize,
+}
+
+impl<T> RwLock<T> {
+    pub(crate) const fn new(value: T) -> RwLock<T> {
+        RwLock {
+            inner: std::sync::RwLock::new(value),
+            writers_waiting: AtomicUsize::new(0),
+        }
+    }
+
+    #[track_caller]
+    pub(crate) fn read(&self) -> LockResult<RwLockReadGuard<'_, T>> {
+        if let Some(hooks) = HOOKS.get() {
+            let site = site_of(core::panic::Location::caller());
+            (hooks.point)(site);
+            loop {
+                if self.writers_waiting.load(Ordering::SeqCst) > 0
+                    && (hooks.writer_preference)()
+                {
+                    (hooks.blocked)(site);
+                    continue;
+                }
+                match self.inner.try_read() {
+                    Err(TryLockError::WouldBlock) => (hooks.blocked)(site),
+                    Ok(guard) => return Ok(guard),
+                    // A poisoned lock is reported by the real acquisition.
+                    Err(TryLockError::Poisoned(_)) => break,
+                }
+            }
+        }
+        self.inner.read()
+    }
+
+    #[track_caller]
+    pub(crate) fn write(&self) -> LockResult<RwLockWriteGuard<'_, T>> {
+        if let Some(hooks) = HOOKS.get() {
+            let site = site_of(core::panic::Location::caller());
+            (hooks.point)(site);
+            let mut waiting = false;
+            let result = loop {
+                match self.inner.try_write() {
+                    Err(TryLockError::WouldBlock) => {
+                        if !waiting {
+                            waiting = true;
+                            self.writers_waiting
+                                .fetch_add(1, Ordering::SeqCst);
+                        }
+                        (hooks.blocked)(site);
+                    }
+                    Ok(guard) => break Some(guard),
+                    Err(TryLockError::Poisoned(_)) => break None,
+                }
+            };
+            if waiting {
+                self.writers_waiting.fetch_sub(1, Ordering::SeqCst);
+            }
+            if let Some(guard) = result {
+                return Ok(guard);
+            }
+        }
+        self.inner.write()
+    }
+
+    #[allow(dead_code)]
+    #[track_caller]
+    pub(crate) fn try_read(&self) -> TryLockResult<RwLockReadGuard<'_, T>> {
+        if let Some(hooks) = HOOKS.get() {
+            (hooks.point)(site_of(core::panic::Location::caller()));
+        }
+        self.inner.try_read()
+    }
+
+    #[allow(dead_code)]
+    #[track_caller]
+    pub(crate) fn try_write(
+        &self,
+    ) -> TryLockResult<RwLockWriteGuard<'_, T>> {
+        if let Some(hooks) = HOOKS.get() {
+            (hooks.point)(site_of(core::panic::Location::caller()));
+        }
+        self.inner.try_write()
+    }
+}
+
+impl<T: core::fmt::Debug> core::fmt::Debug for RwLock<T> {
+    fn fmt(&self, f: &mut core::fmt::Formatter) -> core::fmt::Result {
+        self.inner.fmt(f)
     }
 }
